@@ -24,7 +24,8 @@ func MiniBidiClass(r rune) (c BidiClass, ok bool) {
 	switch {
 	case r >= 'a' && r <= 'z', r >= 'A' && r <= 'Z',
 		r >= 0x03B1 && r <= 0x03C9, // Greek small letters
-		r >= 0x0430 && r <= 0x044F: // Cyrillic small letters
+		r >= 0x0430 && r <= 0x044F, // Cyrillic small letters
+		r >= 0x3041 && r <= 0x3096: // Hiragana (upright in vertical text)
 		return BidiL, true
 	case r >= 0x05D0 && r <= 0x05EA:
 		return BidiR, true
